@@ -358,8 +358,8 @@ FIXED_RECTS = [                                     # always run: the situations
 def gen_cases(ctx):
     rng = ctx.rng
     cases = []
-    n_elev, n_tiles, n_hist = ctx.n(170, 1300), ctx.n(120, 2000), ctx.n(12, 100)
-    n_fp, n_tiles_fp = ctx.n(70, 700), ctx.n(40, 600)
+    n_elev, n_tiles, n_hist = ctx.n(170, 900), ctx.n(120, 1400), ctx.n(12, 80)
+    n_fp, n_tiles_fp = ctx.n(70, 500), ctx.n(40, 400)
 
     def new(ops, warm=(), tag=None):
         cases.append({"id": len(cases), "warm": sorted(warm), "ops": ops, "tag": tag})
